@@ -7,6 +7,7 @@ CONSTANTS
   MaxOps = 4
   ExportOps = 3
   RequestStateKeptAcrossLines = FALSE
+  ConnectionRemembersToken = FALSE
   VerifierRemembersTokens = FALSE
   RedactNeedsTLSRecord = FALSE
   KeyFamily = "cover"
